@@ -4,8 +4,9 @@
  *   The specification below is written from the standard (Ch, Maj, Sigma/sigma with ROTR/SHR, K table,
  *   message schedule W_t = sigma1(W_{t-2}) + W_{t-7} + sigma0(W_{t-15}) + W_{t-16}) but keeps the schedule in a
  *   16-word rolling window like the implementation, so that the miter has the same round structure.
- *   Tier thorough, CaDiCaL, timeout 1500 s.  If it does not close the compression function stays ASSUMED
- *   (the oracle of hash_spec.h) - see the unit note / report for the measured outcome.
+ *   MEASURED 2026-09-23 (thorough tier, CaDiCaL, timeout 1500 s): UNDECIDED (timeout).  The compression function
+ *   therefore stays ASSUMED (the oracle of hash_spec.h); this entry is not in the unit table.  The spec was
+ *   validated natively against the real code on random inputs (replay driver), so a later attempt can reuse it.
  * h_sha_vectors: a TEST, not a proof: the NIST example vectors ("abc", empty string, the 448-bit
  *   message) evaluated through the REAL initialize/write/finalize/transform code by symbolic execution of
  *   concrete inputs (bounded = 'concrete vectors').  It pins the constants (IV, K table, rotation amounts,
